@@ -650,6 +650,9 @@ def c06(tier):
         t["id"] += "-oddstate"
         t["cls"] = "unusual-squeue-state"
         tasks.append(t)
+    # a user-run try-submit-jobs at any point, from the login host and another one (two rounds must never both count
+    # themselves below the limit)
+    tasks += user_round_tasks(["C06"], (0, 0), ["indep3"], params=[("sz1-mx1", dict(size=1, max_nodes=1)), ("sz1-mx2", dict(size=1, max_nodes=2))])
     # a failing status query / a lock timeout in a round must not make the limit forgettable
     for t in rep_tasks(["C06"], (0, 1), graphs=["indep3", "indep4"], params=[("sz1-mx1", dict(size=1, max_nodes=1)), ("sz1-mx2", dict(size=1, max_nodes=2))]):
         t["fault"] = dict(plan="c11", kinds=["squeue", "lock"])
@@ -657,7 +660,7 @@ def c06(tier):
         t["id"] += "-squeue-or-lock-fault"
         t["scen"]["actors"] = [dict(name="rec", argv=["jade", "try-submit-jobs", "{out}"], host="login2", guard="idle_incomplete", repeat=3)]
         tasks.append(t)
-    bounds = f"REP graphs x max-nodes {{1,2}} x processes {{1,2,unset/2 CPUs}} x batch sizes 1-3 at {b[0]} preemption(s); G(3) grid; local mode; failures + cancel flags (incl. a 7-job cancel fan-out in one queue, with up to 2 polls at which nothing finishes); two groups with different process limits; one failing status query (squeue down for a whole round) or one lock-acquisition timeout in a submitter round; resubmission with a groups file that changes the process limit; resubmission while the completing node's batch is still running; one squeue answer per execution showing an active batch as SUSPENDED"
+    bounds = f"a user-run try-submit-jobs at any point from two hosts (3 independent jobs, max-nodes 1/2); REP graphs x max-nodes {{1,2}} x processes {{1,2,unset/2 CPUs}} x batch sizes 1-3 at {b[0]} preemption(s); G(3) grid; local mode; failures + cancel flags (incl. a 7-job cancel fan-out in one queue, with up to 2 polls at which nothing finishes); two groups with different process limits; one failing status query (squeue down for a whole round) or one lock-acquisition timeout in a submitter round; resubmission with a groups file that changes the process limit; resubmission while the completing node's batch is still running; one squeue answer per execution showing an active batch as SUSPENDED"
     return explore_check("C06", tier, tasks, S_RULE, COMMON_ASSUMPTIONS, dict(bounds=bounds))
 
 
@@ -899,6 +902,9 @@ def c09(tier):
     else:
         tasks += shard(cancel_tasks(["C09"], (1, 0), ["chain3", "indep3"], followups=False), 16)
     tasks += input_grid_tasks(["C09"], ns=(1, 2, 3) if tier == "thorough" else (3,), two_groups=False)
+    # two submission groups whose batches are handed over in the same round (status of BOTH groups' jobs must advance)
+    tasks += [t for t in input_grid_tasks(["C09"], ns=(2,) if tier == "quick" else (2, 3), two_groups=True) if "+" in t["cls"] or len(t["scen"]["groups"]) > 1]
+    tasks += rep_tasks(["C09"], (0, 0) if tier == "quick" else (1, 0), graphs=["indep3", "fork", "chain3"], params=REP_PARAMS[:2], assign=(0, 1, 0))
     # resubmissions (the baseline of the monotonicity clauses is reset by a resubmission)
     for t in c13_tasks(tier):
         if t["cls"].startswith("resubmit-complete") and ("-l1-" in t["id"] or tier == "thorough") and "-r0-" in t["id"] or t["cls"] == "resubmit-after-cancel":
@@ -924,7 +930,7 @@ def c09(tier):
         t["id"] = "c09-L1-" + t["id"]
         l1.append(t)
     tasks += l1
-    bounds = f"REP graphs x exit codes x cancel flags at {b[0]} preemption(s); {len(l1)} scenarios (resubmissions, failures) at sync level L1; cancel-jobs actor at every point; input grid at budget 0; resubmissions of submissions with a lost batch (all 8 flag combinations) and after cancel; invariant evaluated after every transition that touched a status file while the cluster lock is free"
+    bounds = f"REP graphs x exit codes x cancel flags at {b[0]} preemption(s); {len(l1)} scenarios (resubmissions, failures) at sync level L1; cancel-jobs actor at every point; input grid at budget 0 (one group; two groups on 2-job DAGs and 3 REP graphs); resubmissions of submissions with a lost batch (all 8 flag combinations) and after cancel; invariant evaluated after every transition that touched a status file while the cluster lock is free"
     return explore_check("C09", tier, tasks, S_RULE, COMMON_ASSUMPTIONS + ["at L0 writers that do not take the cluster lock are observed only between their transitions"], dict(bounds=bounds))
 
 
@@ -1405,8 +1411,8 @@ def c10(tier):
         for i, s1 in enumerate(seqs):
             for s2 in seqs[i:]:
                 for h2 in ("h2", "h1"):
-                    if h2 == "h1" and not ("d" in s1 + s2):
-                        continue
+                    if h2 == "h1" and not ("d" in s1 + s2) and not (any(x in ("P", "p") for x in s1) and any(x in ("P", "p") for x in s2)):
+                        continue  # same-host pairs: those with a demotion, and those in which both handles ask for the role
                     drivers = [dict(name="H1", kind="handle", host="h1", ops=list(s1)),
                                dict(name="H2", kind="handle", host=h2, ops=list(s2))]
                     tasks.append(f_task(f"c10-{''.join(s1)}|{''.join(s2)}@{h2}", "cluster", drivers, "C10", (99, 0)))
